@@ -868,8 +868,12 @@ pub struct GenOpts {
 pub fn inside_poll_spaces(specs: Vec<Spec>, what: &str, limits: Vec<Option<usize>>, with_fail: bool, with_int: bool) -> Vec<Space> {
     let mut v = vec![];
     let lim = limits.clone();
-    v.push(space(&format!("user futures that wake themselves (<=1) / complete a sibling from inside their own poll (<=1), all 20 future APIs x order x limits {limits:?}, {what}"), specs.clone(), None, move |s| {
-        let mut c = cfgs_plain(s.n, &Api::all(), &lim, &REVS);
+    // graphs with declarations (675 of them): the 6 concurrent _with APIs only
+    let declared = specs.first().is_some_and(|s| !s.decl.is_empty()) || specs.len() > 100;
+    let all_apis: Vec<Api> = if declared { conc_with() } else { Api::all() };
+    let apis0 = all_apis.clone();
+    v.push(space(&format!("user futures that wake themselves (<=1) / complete a sibling from inside their own poll (<=1), {} future APIs x order x limits {limits:?}, {what}", all_apis.len()), specs.clone(), None, move |s| {
+        let mut c = cfgs_plain(s.n, &apis0, &lim, &REVS);
         if with_fail && s.n >= 1 && s.n <= 3 {
             c.extend(cfgs_fail(s.n, &try_apis(), &[None, Some(1)], &FWD));
         }
@@ -881,8 +885,8 @@ pub fn inside_poll_spaces(specs: Vec<Spec>, what: &str, limits: Vec<Option<usize
         c
     }));
     let lim = limits.clone();
-    v.push(space(&format!("a user future runs the same graph again from inside its own poll (nested for_each_concurrent / fold_async / stream / for_each_concurrent with functions pending for two polls / try_for_each_concurrent, driven to the end there), 10 `&self` future APIs x order x limits {limits:?}, {what}"), specs.clone(), None, move |s| {
-        let apis: Vec<Api> = Api::all().into_iter().filter(|a| !a.mutable).collect();
+    v.push(space(&format!("a user future runs the same graph again from inside its own poll (nested for_each_concurrent / fold_async / stream / for_each_concurrent with functions pending for two polls / try_for_each_concurrent, driven to the end there), {} `&self` future APIs x order x limits {limits:?}, {what}", all_apis.iter().filter(|a| !a.mutable).count()), specs.clone(), None, move |s| {
+        let apis: Vec<Api> = all_apis.iter().copied().filter(|a| !a.mutable).collect();
         let mut c = cfgs_plain(s.n, &apis, &lim, &REVS);
         if with_fail && s.n >= 1 && s.n <= 3 {
             c.extend(cfgs_fail(s.n, &apis.iter().copied().filter(|a| a.is_try()).collect::<Vec<_>>(), &[None, Some(1)], &FWD));
